@@ -10,7 +10,8 @@ LEAN_MODULES = ["DracoProps.C11"]
 RULE = ("random metadata trees: depth 0..8 (thorough: chains of 1000..1003 levels across the decoder's limit), 0..12 "
         "entries and 0..4 sub-metadata per level, names of length 0..255 over all byte values (and 256, 300 for the "
         "failure path), values of length 0 (empty), 1..64 and up to 64 KiB, same names reused on different levels, "
-        "per-attribute metadata for existing, non-existing and duplicate unique ids; through the bare "
+        "per-attribute metadata for existing, non-existing and duplicate unique ids; dense trees of 1..257 minimal entries "
+        "(empty / one-byte names, empty values: the densest legal encoding, alone and below a parent); through the bare "
         "MetadataEncoder/Decoder and attached to point clouds and meshes under every method; decoder on mutated and "
         "random bytes. Model bytes/status/decoded tree must equal the implementation's; the property "
         "(decoded tree == input tree, or the encoder reports failure) is evaluated on the implementation")
